@@ -16,6 +16,8 @@ HEADER = ("From Coq Require Import List String ZArith.\nFrom V.C02 Require Impor
 # ----------------------------------------------------------------------------- AST helpers
 # expressions: ["lit", int|str|None] ["var", x] ["bin", op, a, b] ["not", a] ["and", a, b] ["or", a, b]
 #              ["assign", x, e] ["postinc", x] ["arr", [e...]] ["call", f, [e...]] ["calln", f, [e...], [[name, e]...]]
+#              ["interp", [str | e ...], heredoc?]  an interpolated string "s{$e}s" / heredoc: printed so in PHP, a Concat chain in Coq;
+#                                                   the expression parts must begin with a variable ($x, $a[e], $f(e), $o->n, $o->hi())
 # statements:  ["expr", e] ["echo", e] ["push", x, e] ["if", c, then, [[c, blk]...], else]
 #              ["while", c, blk] ["dowhile", blk, c] ["for", [e..], c, [e..], blk]
 #              ["foreach", e, k|None, v, blk] ["switch", e, [["case", e, blk] | ["default", blk]]]
@@ -63,6 +65,11 @@ def php_expr(e, top=False):
         return "[" + ", ".join(php_expr(x, True) for x in e[1]) + "]"
     if k == "call":
         return "%s(%s)" % (e[1], ", ".join(php_expr(x, True) for x in e[2]))
+    if k == "interp":
+        body = "".join(x if isinstance(x, str) else "{%s}" % php_expr(x, True) for x in e[1])
+        if len(e) > 2 and e[2]:
+            return "<<<EOT\n%s\nEOT" % body
+        return '"%s"' % body
     if k == "calln":
         return "%s(%s)" % (e[1], ", ".join([php_expr(x, True) for x in e[2]] + ["%s: %s" % (n, php_expr(x, True)) for n, x in e[3]]))
     if k == "new":
@@ -243,6 +250,12 @@ def coq_expr(e):
         return "(EArr %s)" % coq_args(e[1])
     if k == "call":
         return "(ECall %s %s)" % (coq_string(e[1]), coq_args(e[2]))
+    if k == "interp":
+        parts = [lit(x) if isinstance(x, str) else x for x in e[1]]
+        acc = parts[0] if isinstance(e[1][0], str) else ["bin", "Concat", lit(""), parts[0]]
+        for x in parts[1:]:
+            acc = ["bin", "Concat", acc, x]
+        return coq_expr(acc)
     if k == "calln":
         return "(ECallN %s %s [%s] %s)" % (coq_string(e[1]), coq_args(e[2]), "; ".join(coq_string(n) for n, _ in e[3]),
                                           coq_args([x for _, x in e[3]]))
@@ -393,7 +406,7 @@ def nesting_of(x, kinds):
 
 STMT_KINDS = {"expr", "echo", "push", "setidx", "if", "while", "dowhile", "for", "foreach", "switch", "break", "continue",
               "return", "static", "try", "throw", "ifinst"}
-EXPR_KINDS = {"assign", "postinc", "call", "calln", "and", "or", "not", "arr", "new", "msg", "class", "same", "panic", "match", "idx", "idxinc", "closure", "callv", "prop", "setprop", "hi"}
+EXPR_KINDS = {"assign", "postinc", "call", "calln", "interp", "and", "or", "not", "arr", "new", "msg", "class", "same", "panic", "match", "idx", "idxinc", "closure", "callv", "prop", "setprop", "hi"}
 
 
 # ----------------------------------------------------------------------------- generator
@@ -1734,6 +1747,11 @@ class Probe:
             except _Ret as r:
                 return r.v
             return None
+        if k == "interp":
+            out = ""
+            for x in e[1]:
+                out += x if isinstance(x, str) else self.tostr(self.ev(x, fr))
+            return out
         if k == "calln":
             f = self.funcs[e[1]]
             vs = [self.ev(x, fr) for x in e[2]]
